@@ -8,10 +8,15 @@ SRC="$(realpath "$1")"; SID="$2"; PROP="$3"; shift 3; CHECKS="$PROP $*"
 W=$(mktemp -d /tmp/pjrpc-seedchk.XXXXXX); rmdir "$W"
 git -C /repo worktree add --detach -q "$W" HEAD || exit 2
 trap 'git -C /repo worktree remove --force "$W" >/dev/null 2>&1; rm -rf "$W"' EXIT
-cp "$SRC/demo.py" "$W/.seed_demo.py"
-(cd "$W" && PYTHONPATH="$W" timeout 300 /venv/bin/python .seed_demo.py >/dev/null 2>&1); clean_rc=$?
+cp "$SRC/demo.py" "$W/.seed_demo.py"; DEMO=.seed_demo.py
+(cd "$W" && PYTHONPATH="$W" timeout 300 /venv/bin/python $DEMO >/dev/null 2>&1); clean_rc=$?
+if [ $clean_rc != 0 ]; then
+  # some demos locate repository files relative to their own path (<worktree>/.seed/<id>/demo.py): retry from that depth
+  mkdir -p "$W/.seed/case"; cp "$SRC/demo.py" "$W/.seed/case/demo.py"; DEMO=.seed/case/demo.py
+  (cd "$W" && PYTHONPATH="$W" timeout 300 /venv/bin/python $DEMO >/dev/null 2>&1); clean_rc=$?
+fi
 if ! git -C "$W" apply "$SRC/patch.diff"; then echo "$SID: PATCH DOES NOT APPLY"; exit 2; fi
-(cd "$W" && PYTHONPATH="$W" timeout 300 /venv/bin/python .seed_demo.py >/dev/null 2>&1); mut_rc=$?
+(cd "$W" && PYTHONPATH="$W" timeout 300 /venv/bin/python $DEMO >/dev/null 2>&1); mut_rc=$?
 base=$(/tmp/seedtools/run_baseline.sh "$W" | head -1)
 caught=""; missed=""
 for id in $CHECKS; do
